@@ -55,19 +55,36 @@ class FaultPlan:
         self.fired: Counter[str] = Counter()
         self.armed_count: Counter[str] = Counter()
         self.counting = False  # when True, hits are counted (to learn m) but nothing fires
+        self.actions: dict[str, tuple[int, Any]] = {}
 
     def arm(self, site: str, k: int) -> None:
         self.armed[site] = k
         self.armed_count[site] += 1
 
+    def arm_action(self, site: str, k: int, fn: Any) -> None:
+        """Instead of failing, the k-th hit of `site` RUNS fn (a re-entrant use of the library from inside the
+        user callback that hosts the fault point) and then carries on."""
+        self.actions[site] = (k, fn)
+        self.armed_count[site + ":action"] += 1
+
     def disarm(self) -> None:
         self.armed.clear()
+        self.actions.clear()
 
     def reset_hits(self) -> None:
         self.hits.clear()
 
     def hit(self, site: str) -> None:
         self.hits[site] += 1
+        act = self.actions.get(site)
+        if act is not None:
+            k, fn = act
+            if k <= 1:
+                del self.actions[site]
+                self.fired[site + ":action"] += 1
+                fn()
+            else:
+                self.actions[site] = (k - 1, fn)
         k = self.armed.get(site)
         if k is None:
             return
